@@ -229,8 +229,10 @@ def check(ctx):
     stored_on = set()
     for f, c in sched:
         ctx.instance("C15-R2", f.fq, src(c))
-        st = c._parent
-        ok = isinstance(st, ast.Assign) and st.value is c and len(st.targets) == 1 and isinstance(st.targets[0], ast.Attribute) \
+        st, val = c._parent, c
+        while isinstance(st, ast.IfExp) and val in (st.body, st.orelse):      # `h.delegate = loop.call_soon(..) if c else loop.call_at(..)`
+            st, val = st._parent, st
+        ok = isinstance(st, ast.Assign) and st.value is val and len(st.targets) == 1 and isinstance(st.targets[0], ast.Attribute) \
             and st.targets[0].attr in attrs and isinstance(st.targets[0].value, ast.Name)
         if ok:
             stored_on.add((f.fq, st.targets[0].value.id))
@@ -260,7 +262,11 @@ def check(ctx):
                     fn = getattr(fn, "_parent", None)
                 fi = getattr(fn, "_fi", None)
                 st = n._parent
-                arming = isinstance(st, ast.Assign) and isinstance(st.value, ast.Call) and isinstance(st.value.func, ast.Attribute) and st.value.func.attr in SCHED
+                def _is_sched(v):
+                    if isinstance(v, ast.IfExp):
+                        return _is_sched(v.body) and _is_sched(v.orelse)
+                    return isinstance(v, ast.Call) and isinstance(v.func, ast.Attribute) and v.func.attr in SCHED
+                arming = isinstance(st, ast.Assign) and _is_sched(st.value)
                 ok = arming or (fi is not None and fi.cls == hcls and fi.name in ("__init__", "cancel"))
                 ctx.ob("C15-R4", fi.fq if fi else f"{mn}:<module>", f"store to .{n.attr} is an arming site or inside {hcls}.__init__/cancel", ok, node=st,
                        construct=f"store to .{n.attr}", msg=f"the cancel state .{n.attr} is written outside __init__/cancel/arming: cancellation can be undone or faked")
